@@ -10,7 +10,7 @@ import torch
 from ..common import Rng, Report, budget, ckey
 from ..registry import SPECS, Spec, fresh_cfg, public_cfg, new_metric
 from ..engine import observe, same_obs, obs_json, snapshot, snap_equal
-from ..hist import random_ops, apply_op, describe_ops, same_step
+from ..hist import f64_ops, random_ops, apply_op, describe_ops, same_step
 from ..translators import states as states_tr
 from torcheval.metrics.toolkit import clone_metric
 
@@ -106,6 +106,13 @@ def one(rep: Report, rng: Rng, spec: Spec, cfg0: dict, all_prefixes: bool):
     win = cfg.get("max_num_updates") or cfg.get("max_num_samples") or 0
     ops = random_ops(rng, spec, cfg, rng.randint(1, 7 if not win else 2 * win + 2))
     cont = random_ops(rng, spec, cfg, rng.randint(2, 4) if not win else 2 * win + 2, allow_reset=False) + [("o",)]
+    # dtype variants: states whose dtype follows the data must survive a restore with their dtype AND value
+    dmode = rng.choice(["f32", "f32", "f64", "f64-history-only"])
+    rep.count(f"dtype-mode:{dmode}")
+    if dmode != "f32":
+        ops = f64_ops(ops)
+        if dmode == "f64":
+            cont = f64_ops(cont, salt=2)
     positions = list(range(len(ops) + 1)) if all_prefixes else sorted(set(rng.sample(range(len(ops) + 1), min(2, len(ops) + 1))))
     for p in positions:
         how = rng.choice(HOW) if not all_prefixes else HOW[p % 4]
